@@ -255,68 +255,3 @@ def _namedtuple_replace_attr(ex, st, obj, name, node):
         return None
     from pyvc.vals import v_py
     return v_py(('bound', obj, name))
-
-
-# ---- dict comprehension of symbolic length: Skolemised domain ------------------------------------------
-# ENGINE  The core gives {k(j): v(j) for j < n} the domain  lambda x. exists j. k(j) == x  (quantifier alternation inside
-#         an array lambda: every later membership test makes the solver search for a witness).  Here the same set is
-#         given in Skolem form, like the representation invariant of parameter dicts: a fresh array D and a fresh
-#         position function p with  D[k(j)] for j < n  and  D[x] -> 0 <= p(x) < n and k(p(x)) == x.
-#         Pairwise distinct keys (the case of every comprehension over d.items() / a key list) are proved ONCE as an
-#         obligation `lemma:dict-comprehension-keys-distinct` (cut) and then used: key list = k(0..n-1) in order,
-#         map[k(j)] == v(j), p(k(j)) == j.  When that obligation fails the comprehension is outside this model.
-_orig_comprehension = lib.comprehension
-
-
-def _comprehension(ex, st, node, kind):
-    from pyvc.vals import ANY, I, as_ref, fresh_int, fresh_name
-    if not _mine(ex) or kind != 'dict' or st.spec or st.bound or st.guards or len(node.generators) != 1 or node.generators[0].ifs:
-        return _orig_comprehension(ex, st, node, kind)
-    gen = node.generators[0]
-    itv = ex.ev(st, gen.iter)
-    view = lib.iter_view(ex, st, itv, gen.iter)
-    if ex.concrete_int(view.n) is not None:
-        return _orig_comprehension(ex, st, node, kind)
-    saved = dict(st.locals)
-    try:
-        n = view.n
-        j = z3.Int(fresh_name('j'))
-        guard = z3.And(j >= 0, j < n)
-        st.bound.append((j, guard))
-        try:
-            ex.assign(st, gen.target, view.get(st, j))
-            kv = ex.ev(st, node.key)
-            vv = ex.ev(st, node.value)
-        finally:
-            st.bound.pop()
-        key_t, val_t = kv.t, ex.box(st, vv)
-        j2 = z3.Int(fresh_name('j'))
-        key2 = z3.substitute(key_t, (j, j2))
-        distinct = z3.ForAll([j, j2], z3.Implies(z3.And(j >= 0, j < j2, j2 < n), key_t != key2))
-        ex.ctx.add_oblig(st, 'lemma', 'dict-comprehension-keys-distinct', distinct, line=getattr(node, 'lineno', 0))
-        D = z3.Const(fresh_name('cdom'), z3.ArraySort(Val, z3.BoolSort()))
-        mp = z3.Const(fresh_name('cmap'), z3.ArraySort(Val, Val))
-        kel = z3.Const(fresh_name('kel'), z3.ArraySort(I, Val))
-        pos = z3.Function(fresh_name('cpos'), Val, I)
-        x = z3.Const(fresh_name('x'), Val)
-        st.pc.append(n >= 0)
-        st.pc.append(z3.ForAll([j], z3.Implies(guard, z3.And(z3.Select(D, key_t), z3.Select(kel, j) == key_t,
-                                                             z3.Select(mp, key_t) == val_t, pos(key_t) == j)),
-                               patterns=[z3.Select(kel, j)]))
-        key_at_pos = z3.substitute(key_t, (j, pos(x)))
-        st.pc.append(z3.ForAll([x], z3.Implies(z3.Select(D, x), z3.And(pos(x) >= 0, pos(x) < n, key_at_pos == x,
-                                                                       z3.Select(kel, pos(x)) == x)),
-                               patterns=[z3.Select(D, x)]))
-        d = st.new_dict(kv.ty, vv.ty)
-        r = as_ref(d)
-        st.write(r, '$dom', D)
-        st.write(r, '$map', mp)
-        st.write(r, '$len', n)
-        st.write(r, '$elems', kel)
-        ex.ctx.note('ENGINE c05c: dict comprehension of symbolic length with pairwise distinct keys (proved): Skolemised domain')
-        return d
-    finally:
-        st.locals = saved
-
-
-lib.comprehension = _comprehension
